@@ -244,3 +244,90 @@ func HarnessParsed() {
 	zzvrt.Check("C08.parsed.enum", zzvrt.Implies(f.others("enum"), zzvrt.Iff(accepted, f.enum)))
 	zzvrt.Check("C13.parsed.spelling-does-not-matter", zzvrt.Iff(accepted, f.all()))
 }
+
+// zzCorpus: schema documents that combine the composition keywords with references in the ways
+// that stress declaration bookkeeping (a composed definition referenced twice, unions of
+// references inside composed definitions, recursion through allOf, enums and nullable
+// references shared by several positions).  Each goes through the real parser and generator;
+// the emitted file must type-check.  name -> known finding, if the unchanged tool fails on it.
+var zzCorpus = []struct{ name, text, finding string }{
+	{"composed-definition-with-a-union-of-refs-referenced-twice", `{"$id": "https://example.com/c0", "type": "object",
+	  "properties": {"owner": {"$ref": "#/$defs/Owner"}, "coOwner": {"$ref": "#/$defs/Owner"}},
+	  "$defs": {
+	    "Base": {"type": "object", "properties": {"id": {"type": "string"}}, "required": ["id"]},
+	    "Cat": {"type": "object", "properties": {"meow": {"type": "boolean"}}},
+	    "Dog": {"type": "object", "properties": {"bark": {"type": "boolean"}}},
+	    "Owner": {"type": "object", "allOf": [{"$ref": "#/$defs/Base"}],
+	      "properties": {"pet": {"anyOf": [{"$ref": "#/$defs/Cat"}, {"$ref": "#/$defs/Dog"}]}}}}}`, "composed-definition-referenced-twice-duplicates-its-method"},
+	{"composed-definition-without-rules-with-a-union-of-refs-referenced-twice", `{"$id": "https://example.com/c0b", "type": "object",
+	  "properties": {"owner": {"$ref": "#/$defs/Owner"}, "coOwner": {"$ref": "#/$defs/Owner"}, "third": {"$ref": "#/$defs/Owner"}},
+	  "$defs": {
+	    "Base": {"type": "object", "properties": {"id": {"type": "string"}}},
+	    "Cat": {"type": "object", "properties": {"meow": {"type": "boolean"}}, "required": ["meow"]},
+	    "Dog": {"type": "object", "properties": {"bark": {"type": "boolean"}}, "required": ["bark"]},
+	    "Owner": {"type": "object", "allOf": [{"$ref": "#/$defs/Base"}],
+	      "properties": {"pet": {"anyOf": [{"$ref": "#/$defs/Cat"}, {"$ref": "#/$defs/Dog"}]}}}}}`, ""},
+	{"definition-that-is-a-union-of-refs-referenced-twice", `{"$id": "https://example.com/c1", "type": "object",
+	  "properties": {"first": {"$ref": "#/$defs/Pet"}, "second": {"$ref": "#/$defs/Pet"}},
+	  "$defs": {
+	    "Cat": {"type": "object", "properties": {"meow": {"type": "boolean"}}, "required": ["meow"]},
+	    "Dog": {"type": "object", "properties": {"bark": {"type": "boolean"}}, "required": ["bark"]},
+	    "Pet": {"type": "object", "anyOf": [{"$ref": "#/$defs/Cat"}, {"$ref": "#/$defs/Dog"}]}}}`, "union-definition-referenced-twice-duplicates-its-method"},
+	{"allOf-of-refs-with-own-properties-and-a-union-in-array-items", `{"$id": "https://example.com/c2", "type": "object",
+	  "properties": {"all": {"allOf": [{"$ref": "#/$defs/A"}, {"$ref": "#/$defs/B"}], "properties": {"own": {"type": "integer"}}},
+	    "list": {"type": "array", "items": {"anyOf": [{"$ref": "#/$defs/A"}, {"type": "object", "properties": {"z": {"type": "number"}}}]}}},
+	  "$defs": {"A": {"type": "object", "properties": {"a": {"type": "string"}}, "required": ["a"]},
+	    "B": {"type": "object", "properties": {"b": {"type": "integer", "minimum": 1}}}}}`, ""},
+	{"recursion-through-allOf", `{"$id": "https://example.com/c3", "type": "object", "properties": {"tree": {"$ref": "#/$defs/Node"}},
+	  "$defs": {"Named": {"type": "object", "properties": {"name": {"type": "string"}}},
+	    "Node": {"type": "object", "allOf": [{"$ref": "#/$defs/Named"}],
+	      "properties": {"children": {"type": "array", "items": {"$ref": "#/$defs/Node"}}, "parent": {"$ref": "#/$defs/Node"}}}}}`, ""},
+	{"shared-enums-nullable-refs-and-closed-objects", `{"$id": "https://example.com/c4", "type": "object",
+	  "properties": {"a": {"$ref": "#/$defs/Color"}, "b": {"$ref": "#/$defs/Color"},
+	    "c": {"type": "array", "items": {"$ref": "#/$defs/Color"}},
+	    "d": {"type": "object", "additionalProperties": false, "properties": {"e": {"$ref": "#/$defs/Level"}}},
+	    "f": {"type": "object", "additionalProperties": {"$ref": "#/$defs/Level"}}},
+	  "required": ["a"],
+	  "$defs": {"Color": {"type": "string", "enum": ["red", "green"]}, "Level": {"type": "integer", "enum": [1, 2, 3]}}}`, ""},
+}
+
+// HarnessCorpus: every corpus document generates, and the emitted file type-checks, under the
+// default options, --only-models and --extra-imports.
+func HarnessCorpus() {
+	k := zzvrt.Choice(len(zzCorpus))
+	c := zzCorpus[k]
+	cfg := Config{DefaultPackageName: "example.com/gen", DefaultOutputName: "root.go", Warner: func(string) {},
+		Tags: []string{"json", "yaml", "mapstructure"}}
+	switch zzvrt.Choice(3) {
+	case 1:
+		cfg.OnlyModels = true
+	case 2:
+		cfg.ExtraImports = true
+	}
+	var sch schemas.Schema
+	if err := json.Unmarshal([]byte(c.text), &sch); err != nil {
+		zzvrt.Unreachable("corpus text does not parse: " + err.Error())
+	}
+	g, err := New(cfg)
+	if err != nil {
+		zzvrt.Unreachable("New failed")
+	}
+	zzvrt.Cover("corpus:" + c.name)
+	zzvrt.Note("corpus=" + c.name)
+	if err := g.addFile("root.json", &sch); err != nil {
+		zzvrt.Note("generator error: " + err.Error())
+		zzvrt.Check("C18.corpus.valid-schema-generates", false)
+		return
+	}
+	src := string(g.Sources()["root.go"])
+	zzvrt.Emit("root.go", src)
+	h := zzvrt.Stage2(src)
+	if !zzvrt.S2OK(h) {
+		zzvrt.Note(zzvrt.S2Errors(h))
+	}
+	// recorded findings: definitions that are regenerated on every visit (composed with allOf, or
+	// themselves a union) emit their UnmarshalJSON once per visit
+	zzvrt.Check("C01.corpus.emitted-code-compiles", zzvrt.S2OK(h),
+		zzvrt.Dev{Name: "union-definition-referenced-twice-duplicates-its-method", Cond: c.finding == "union-definition-referenced-twice-duplicates-its-method" && !cfg.OnlyModels},
+		zzvrt.Dev{Name: "composed-definition-referenced-twice-duplicates-its-method", Cond: c.finding == "composed-definition-referenced-twice-duplicates-its-method" && !cfg.OnlyModels})
+}
